@@ -14,8 +14,8 @@
 
 using namespace Vector::BLF;
 
-struct MCfg { bool writing; uint32_t C; long S; bool shipped; long B; uint32_t Q; int level; int stall_every; bool damaged; bool aligned; bool padcut = false; bool shrink = false;
-    std::string str() const { std::ostringstream s; s << (writing ? "write" : "read") << " C=" << C << " S=" << S << " B=" << (shipped ? 0x20000 : B) << " Q=" << (shipped ? 10 : Q) << " level=" << level << " stall_every=" << stall_every << (damaged ? " damaged-record" : "") << (aligned ? " boundary-aligned-bursts" : "") << (padcut ? " containers-end-in-padding" : "") << (shrink ? " container-size-lowered-mid-session" : ""); return s.str(); } };
+struct MCfg { bool writing; uint32_t C; long S; bool shipped; long B; uint32_t Q; int level; int stall_every; bool damaged; bool aligned; bool padcut = false; bool shrink = false; bool restate = false;
+    std::string str() const { std::ostringstream s; s << (writing ? "write" : "read") << " C=" << C << " S=" << S << " B=" << (shipped ? 0x20000 : B) << " Q=" << (shipped ? 10 : Q) << " level=" << level << " stall_every=" << stall_every << (damaged ? " damaged-record" : "") << (aligned ? " boundary-aligned-bursts" : "") << (padcut ? " containers-end-in-padding" : "") << (shrink ? " container-size-lowered-mid-session" : "") << (restate ? " container-size-restated-before-every-object" : ""); return s.str(); } };
 
 static MCfg make_cfg(uint64_t seed, long ci) {
     Rng r(Rng::mix(seed ^ 0xC12, (uint64_t)ci));
@@ -35,6 +35,7 @@ static MCfg make_cfg(uint64_t seed, long ci) {
     // container by skipping, not by reading
     // write side: the application lowers the container size while the session is running (8C at open(), C after an eighth of the objects)
     c.shrink = c.writing && !c.aligned && (ci % 16) < 8;
+    c.restate = c.writing && !c.aligned && !c.shrink && (ci % 32) < 16;      // the application states the (same) container size again before every object
     c.padcut = !c.writing && !c.damaged && (ci % 16) < 8;
     if (c.padcut) c.S += (2 - (c.S + 48) % 4 + 4) % 4;      // objectSize % 4 == 2: two padding bytes after every object
     return c;
@@ -101,6 +102,7 @@ static Meas run_one(const MCfg & c, int N, const std::string & path, uint64_t ss
             f.open(path.c_str(), std::ios_base::out);
             for (long i = 0; i < nobj; i++) {
                 if (c.shrink && i == std::max<long>(1, nobj / 8)) f.setDefaultLogContainerSize(c.C);
+                if (c.restate) f.setDefaultLogContainerSize(c.C);
                 AppText * t = new AppText; t->objectTimeStamp = (uint64_t)i; t->text.assign((size_t)c.S, (char)('a' + i % 26));
                 f.write(t);
                 if (i % c.stall_every == 0) sample(false);
